@@ -59,7 +59,15 @@ fn replay(path: &str, opts: &Opts) {
     let mut rep = Report::new("replay", "");
     let mut proto = vec![];
     let mut outs = vec![];
-    if lines.iter().any(|l| l.starts_with("st ")) {
+    if lines.iter().any(|l| l.starts_with("tvcfg")) {
+        // C18: the whole scenario (script, protection, save, edit, reload) is re-run
+        if let Some((line, answer)) = fam::validation::replay(&lines) {
+            proto.push(line);
+            outs.push(answer);
+        } else {
+            println!("  the scenario did not reach the model comparison (see ORACLE lines above)");
+        }
+    } else if lines.iter().any(|l| l.starts_with("st ")) {
         // stateful family: the whole script runs on one store
         let script: Vec<String> = lines.iter().filter(|l| l.starts_with("st ")).cloned().collect();
         let outs2 = fam::store::exec_script(&script);
